@@ -32,6 +32,43 @@ type Ledger struct {
 	Generated   string        `json:"generated"`
 	Obligations []LedgerEntry `json:"obligations"`
 	Undecided   []string      `json:"undecided_on_unchanged_tree"`
+	// contract errors that exist on the unchanged tree already (they say nothing about a change)
+	ContractErrs []string `json:"contract_errors_on_unchanged_tree,omitempty"`
+	// number of loops of every function that has loop clauses in the ledger (a smaller number later
+	// means that a loop was removed, not renamed)
+	LoopCounts map[string]int `json:"loop_counts,omitempty"`
+}
+
+// loopCount: the number of loops of the function with that key (-1 if there is no such function).
+func (w *World) loopCount(fkey string) int {
+	for _, f := range w.findFuncs("") {
+		if funcKey(f) == fkey {
+			if li := loopInfoFor(f); li != nil {
+				return len(li.loops)
+			}
+			return 0
+		}
+	}
+	return -1
+}
+
+var ceFileRe = regexp.MustCompile(`CONTRACT-ERROR\s+\S*?([A-Za-z0-9_/]*zz_[a-z_]*verif\.go):(\d+)`)
+
+// normalizeCE strips the repository path and the line number from a contract error note, so that the
+// same error is recognised in a scratch copy of the repository and after lines have shifted.
+func normalizeCE(note string) string {
+	note = strings.TrimSpace(note)
+	if m := ceFileRe.FindStringSubmatchIndex(note); m != nil {
+		file := note[m[2]:m[3]]
+		if i := strings.LastIndex(file, "/"); i >= 0 {
+			// keep the package directory and the file name
+			if j := strings.LastIndex(file[:i], "/"); j >= 0 {
+				file = file[j+1:]
+			}
+		}
+		return "CONTRACT-ERROR " + file + note[m[5]:]
+	}
+	return note
 }
 
 type Finding struct {
@@ -440,8 +477,22 @@ func cmdLedger(args []string) {
 			led.Undecided = append(led.Undecided, n)
 		}
 	}
+	led.LoopCounts = map[string]int{}
+	for _, e := range led.Obligations {
+		parts := strings.SplitN(e.Name, "#", 3)
+		if len(parts) == 3 && strings.HasPrefix(parts[2], "loop@") {
+			if _, done := led.LoopCounts[parts[0]]; !done {
+				led.LoopCounts[parts[0]] = w.loopCount(parts[0])
+			}
+		}
+	}
+	seenCE := map[string]bool{}
 	for _, n := range ro.notes {
 		fmt.Println(n)
+		if strings.Contains(n, "CONTRACT-ERROR") && !seenCE[normalizeCE(n)] {
+			seenCE[normalizeCE(n)] = true
+			led.ContractErrs = append(led.ContractErrs, normalizeCE(n))
+		}
 	}
 	for k, v := range ro.outside {
 		fmt.Printf("  OUTSIDE %s: %s\n", k, v)
@@ -558,9 +609,21 @@ func cmdCheck(args []string) {
 	defer os.RemoveAll(dir)
 	ro := w.runPropertySkip(*prop, tmo, dir, only, shortT, skip)
 
+	// a contract error that the unchanged tree has already says nothing about the change under test: it
+	// must not turn failures of that function into "stale contract, undecided"
+	baseCE := map[string]bool{}
+	for _, n := range led.ContractErrs {
+		baseCE[n] = true
+	}
+	for k, note := range ro.stale {
+		if baseCE[normalizeCE(note)] {
+			delete(ro.stale, k)
+		}
+	}
 	replayDir := filepath.Join(*verif, "replay", *prop)
 	violations := 0
 	var undecided, unattached, knownHit []string
+	newSafetyReplays := 0
 	notAttempted := 0
 	discharged := 0
 	claimed := 0
@@ -609,6 +672,19 @@ func cmdCheck(args []string) {
 			violations++
 			path := writeReplay(replayDir, *prop, r, w)
 			fmt.Printf("VIOLATION property=%s replay=%s obligation=%s status=%s no-failing-input-found\n", *prop, path, n, r.Status)
+		case r.Kind == "safety" && (r.Status == "sat" || r.Status == "unknown" || r.Status == "timeout") && !w.knownNames[n] && newSafetyReplays < 3 && r.Worst != nil:
+			// (without a model from the solver the search for an input uses the relaxed, quantifier-free query)
+			r.Worst.forceReplay = true
+			// a safety obligation that the unchanged tree does not have (new code) and that has a
+			// counter-model: a violation if -- and only if -- the real function crashes on that input
+			newSafetyReplays++
+			path := writeReplay(replayDir, *prop, r, w)
+			if r.replayed {
+				violations++
+				fmt.Printf("VIOLATION property=%s replay=%s obligation=%s status=%s (new obligation, the counterexample crashes the real code)\n", *prop, path, n, r.Status)
+			} else {
+				undecided = append(undecided, n)
+			}
 		default:
 			if r.Status != "discharged" {
 				undecided = append(undecided, n)
@@ -642,6 +718,13 @@ func cmdCheck(args []string) {
 					key = key[:i]
 				}
 				stable = w.identsStillInFunc(parts[0], key)
+				if before, ok := led.LoopCounts[parts[0]]; ok && !stable {
+					// the function has fewer loops than on the unchanged tree: a loop is gone, whatever its
+					// variables were called
+					if now := w.loopCount(parts[0]); now >= 0 && now < before {
+						stable = true
+					}
+				}
 			}
 			if stable && loopOrdRe.MatchString(parts[2]) {
 				stable = false // named by a loop ordinal: shifts when another loop is added
@@ -713,6 +796,10 @@ func cmdCheck(args []string) {
 		"closed world for AST interfaces: the Dyn datatype has exactly the node types found in the loaded packages",
 		"receivers *converter / *Parser / *transpiler are non-nil and unaliased",
 		"trusted: go/packages + go/ssa construction of the analysed functions; the govc engine itself; the SMT solvers",
+		"node invariants of the AST are used as facts for every interface value (closed world, nodes immutable once converted to an interface); they are proved where a node is converted (obligations ...#node-invariant#...)",
+		"ValueType / StatementType are declared total on nodes that are there; the declaration is justified by the safety obligations of their implementations (structural induction over the finite tree) and by nothing else",
+		"vacuity guards examine the quantifier-free part of the assumptions only; a guard that is not decided in time is a note, not a violation",
+		"termination is proved for the loops that have a decreases clause (the lexer's three loops) and nowhere else",
 	)
 	var libs []string
 	for l := range ro.libs {
